@@ -139,12 +139,6 @@ mod verif_methods {
 		let x = letter();  h = [h[1], h[2], x]; let out = m.next(&x); assert!(out == med3(h[0], h[1], h[2]));
 	}
 
-	// exact, up to the sign of zero (== on floats)
-			assert!(out == med3(h[0], h[1], h[2]));
-			k += 1;
-		}
-	}
-
 	// the listed finding (both zeros in the window) cut out: the window never holds two zeros of different sign
 	#[kani::proof]
 	#[kani::unwind(4)]
